@@ -108,6 +108,19 @@ EntryLaw(t, c) ==
        /\ \A i \in DOMAIN f.leaves : f.leaves[i] = LeafId(Access(t, Paths(f.spec)[i], c))
 InvC03 == Len(stack) = 1 => \A c \in Cfgs : EntryLaw(Top, c)
 
+\* C11: loading in a process whose registry is any sub-world of Reg0
+SubWorlds == {SelectSeq(Reg0, LAMBDA r : r \in S) : S \in SUBSET {Reg0[i] : i \in DOMAIN Reg0}}
+PickleLaw(t, c) ==
+  LET s == F(t, c).spec IN
+  \A w \in SubWorlds :
+     LET u == Unpickle(s, w)
+         fresh == Flatten(t, [c EXCEPT !.reg = w]) IN
+     IF IsErr(u) THEN \E x \in SubTrees(t) : x.k = "custom" /\ Registered(c, x.cls) /\ ~RegIn(w, c.ns, x.cls)
+     ELSE /\ u.spec = s
+          \* ... and it is the treespec flattened afresh in the loading process, whenever that process classifies the tree alike
+          /\ (\A x \in SubTrees(t) : x.k = "custom" => (Registered(c, x.cls) <=> RegIn(w, c.ns, x.cls))) => fresh.spec = s
+InvC11 == Len(stack) = 1 => \A c \in Cfgs : PickleLaw(Top, c)
+
 InvC01 == Len(stack) = 1 => \A c \in Cfgs : RT1(Top, c) /\ RT2(Top, c) /\ RT3(Top, c)
 InvC02 == Len(stack) = 1 => \A c \in Cfgs : NoneLaw(Top, c) /\ PredLaw(Top, c) /\ PermLaw(Top, c) /\ ClassLaw(Top, c)
 InvC04 == Len(stack) = 1 => \A c \in Cfgs : PathLaw(Top, c)
@@ -170,6 +183,21 @@ ComposeLaw(a, b, c) ==
      /\ NumLeaves(cp.spec) = NumLeaves(sa) * NumLeaves(sb)
      /\ cp.spec.nodes = S(Subst(a, b, c), c).nodes
      /\ SpecPrefix(sa, cp.spec, FALSE)
+
+\* C10: transposing an outer-of-inner leaf vector twice is the identity; the value at (inner j, outer i) is the input's (i, j)
+TransposeLaw(a, b, c) ==
+  LET so == S(a, c)  si == S(b, c)  m == NumLeaves(so)  n == NumLeaves(si)
+      xs == [k \in 1..(m * n) |-> 5000 + k]
+      t1 == Transpose(so, si, xs)
+  IN IF m = 0 \/ n = 0 THEN IsErr(t1)
+     ELSE /\ ~IsErr(t1)
+          /\ \A i \in 1..m, j \in 1..n : t1.leaves[(j - 1) * m + i] = xs[(i - 1) * n + j]
+          /\ Transpose(si, so, t1.leaves).leaves = xs
+          /\ t1.spec = Compose(si, so).spec /\ NumLeaves(t1.spec) = m * n
+          /\ IsErr(Transpose(so, si, Append(xs, 1)))
+          \* the leaves of the a-of-b tree, regrouped, are the leaves of the b-of-a tree
+          /\ Len(t1.leaves) = Len(xs) /\ Range(t1.leaves) = Range(xs)
+InvC10 == Len(stack) = 2 => \A c \in PairCfgs : TransposeLaw(stack[1], stack[2], c)
 
 PairLaw(a, b, c) == EqLaw(a, b, c) /\ PrefixLaw(a, b, c) /\ LubLaw(a, b, c) /\ ComposeLaw(a, b, c)
 
